@@ -132,6 +132,10 @@ def num_binop(ex, opn, l, r):
                     return a ** b
             except ZeroDivisionError:
                 raise PyRaise('ZeroDivisionError', 'integer division or modulo by zero')
+        if opn in ('FloorDiv', 'Mod'):
+            fd = factor_divide(ex, a, b)
+            if fd is not None:
+                return fd[0] if opn == 'FloorDiv' else fd[1]
         a, b = to_int(a), to_int(b)
         if opn == 'Add':
             return sz(a + b)
@@ -218,6 +222,77 @@ def num_binop(ex, opn, l, r):
             return SymScalar(1 / s.expr, kind, pt)
         raise OutOfSubset('symbolic power %r' % (r,))
     raise OutOfSubset('numeric op %s' % opn)
+
+
+def _monomial(e):
+    """z3 Int product of constants and uninterpreted constants -> (coefficient, sorted list of symbol names, {name: expr}) or None"""
+    if isinstance(e, int):
+        return e, [], {}
+    e = z3.simplify(e)
+    if z3.is_int_value(e):
+        return e.as_long(), [], {}
+    coef, syms, table = 1, [], {}
+    stack = [e]
+    while stack:
+        x = stack.pop()
+        if z3.is_int_value(x):
+            coef *= x.as_long()
+        elif z3.is_const(x) and x.decl().kind() == z3.Z3_OP_UNINTERPRETED:
+            syms.append(x.decl().name())
+            table[x.decl().name()] = x
+        elif z3.is_app(x) and x.decl().kind() == z3.Z3_OP_MUL:
+            stack.extend(x.children())
+        elif z3.is_app(x) and x.decl().kind() == z3.Z3_OP_POWER and z3.is_int_value(x.children()[1]):
+            for _ in range(x.children()[1].as_long()):
+                stack.append(x.children()[0])
+        elif z3.is_app(x) and x.decl().kind() in (z3.Z3_OP_ITE,):
+            # an opaque positive quantity (e.g. a rank given as a min): treated as one symbol
+            nm = 'opq#%d' % x.get_id()
+            syms.append(nm)
+            table[nm] = x
+        else:
+            return None
+    return coef, sorted(syms), table
+
+
+def factor_divide(ex, a, b):
+    """(a // b, a % b) for products of symbols when one divides the other syntactically; None when undetermined"""
+    ma, mb = _monomial(a), _monomial(b)
+    if ma is None or mb is None or mb[0] <= 0 or ma[0] <= 0:
+        return None
+    if not ma[1] and not mb[1]:
+        return None
+    ca, sa, ta = ma
+    cb, sb, tb = mb
+    rest = list(sa)
+    ok = True
+    for s_ in sb:
+        if s_ in rest:
+            rest.remove(s_)
+        else:
+            ok = False
+            break
+    if ok and ca % cb == 0:
+        q = ca // cb
+        for s_ in rest:
+            q = q * ta[s_]
+        return sz(q) if is_sym(q) else q, 0
+    # a is a proper divisor of b (b = a * rest with rest >= 2): a // b = 0, a % b = a
+    rest = list(sb)
+    ok = True
+    for s_ in sa:
+        if s_ in rest:
+            rest.remove(s_)
+        else:
+            ok = False
+            break
+    if ok and cb % ca == 0 and (rest or cb // ca > 1):
+        extra = cb // ca
+        big = extra > 1 or any(ex.pc.implied(tb[s_] >= 2) for s_ in rest)
+        pos = all(ex.pc.implied(tb[s_] >= 1) for s_ in rest)
+        if big and pos:
+            return 0, a
+    return None
 
 
 def _is_np(v):
